@@ -44,7 +44,46 @@ async function loadModules() {
       // a module that does not load is the C04 leg's business
     }
   }
+  // parsers built at run time with the `b` API and createNamedType / overrideNamedType (the
+  // process-global registry of named types): seeded graphs of named types, recursive through
+  // placeholders, some with leaves that cannot be printed
+  try {
+    const B = await rt("b");
+    const C = await rt("codegen-v2");
+    if (B.b && typeof C.createNamedType === "function" && typeof C.overrideNamedType === "function") {
+      for (let k = 0; k < 24; k++) MODS.push(bApiModule(B, C, k));
+    }
+  } catch (err) {
+    // the b API is an optional part of the workload
+  }
   return MODS;
+}
+function bApiModule(B, C, k) {
+  const rng = new Rng(1, "bapi", k);
+  const { b, buntyped } = B;
+  const n = rng.range(2, 6);
+  const names = Array.from({ length: n }, (_, i) => `Bm${k}N${i}`);
+  const named = names.map((nm) => C.createNamedType(nm, b.Unknown()));
+  const leaf = () => {
+    const r = rng.below(12);
+    if (r < 5) return named[rng.below(n)];
+    if (r === 5) return b.Array(named[rng.below(n)]);
+    if (r === 6 && buntyped) return buntyped.Union(named[rng.below(n)], b.Null());
+    if (r === 7) return b.Const(rng.pick(["x", 1, true]));
+    if (r === 8) return rng.chance(1, 3) ? b.Date() : b.Uint8Array();
+    if (r === 9 && buntyped) return buntyped.Union(b.String(), b.Array(named[rng.below(n)]));
+    return rng.pick([b.String(), b.Number(), b.Boolean(), b.Any()]);
+  };
+  for (let i = 0; i < n; i++) {
+    const fields = {};
+    for (let f = rng.range(1, 4); f > 0; f--) fields["f" + f] = leaf();
+    const body = rng.chance(1, 6) ? b.Array(b.Object(fields)) : b.Object(fields);
+    C.overrideNamedType(names[i], body);
+  }
+  const P = {};
+  names.forEach((nm, i) => (P[nm] = named[i]));
+  P[`Bm${k}Inline`] = b.Object({ a: named[0], b: b.Array(named[n - 1]) });
+  return { id: `bapi_${k}`, P, names: Object.keys(P).sort(), cache: new Map(), file: null, sf: {}, nf: {} };
 }
 
 // A brand-new instance of a compiled module (new runtype objects, no history on them): the
@@ -54,6 +93,8 @@ let PRISTINE_N = 0;
 // module instances cannot be unloaded: a worker that has imported this many asks to be replaced
 const PRISTINE_CAP = Number(process.env.JSIM_PRISTINE_CAP || 3000);
 async function pristine(mod) {
+  // parsers built with the b API live in the runtime's global registry: there is one instance
+  if (!mod.file) return mod;
   PRISTINE_N++;
   const m = await import(pathToFileURL(mod.file).href + "?pristine=" + process.pid + "_" + PRISTINE_N);
   const P = m.default.buildParsers({ stringFormats: mod.sf, numberFormats: mod.nf });
@@ -1285,8 +1326,8 @@ async function main() {
             refs_resolved: agg.refs,
             definitions_compared: agg.defs,
             distinct_sequences: agg.sigs.size,
-            faults_fired: { print_that_throws: agg.throws },
-            components: { real: ["packages/beff-client/src/*.ts type-stripped from the working tree (codegen-v2, hash, err, openapi-pp, b, index)", "modules emitted by the real compiler (native beff-wasm session) from corpus projects"], stub: ["zod (one-line stub)", "bundle-to-disk finalize wrapper (re-stated, self-tested)", "type stripper (swc based; fails loudly on syntax it does not handle)"] },
+            faults_fired: { print_that_throws: agg.throws, export_edited_by_the_caller: agg.exportEdits || 0, options_object_edited_after_construction: agg.optionEdits || 0, flat_print_interleaved: agg.flat || 0, history_on_a_brand_new_module_instance: agg.pristine || 0 },
+            components: { real: ["packages/beff-client/src/*.ts type-stripped from the working tree (codegen-v2, hash, err, openapi-pp, b, index)", "modules emitted by the real compiler (native beff-wasm session) from corpus and seeded synthetic projects", "24 seeded graphs of named types built at run time with the b API / createNamedType / overrideNamedType"], stub: ["zod (one-line stub)", "bundle-to-disk finalize wrapper (re-stated, self-tested)", "type stripper (swc based; fails loudly on syntax it does not handle)"] },
           }
         : {
             evaluations: agg.n + (big ? 1 : 0),
